@@ -110,9 +110,10 @@ func c12Child(a *ChildArgs) {
 		bads := []string{"INSERT INTO t VALUES (1, -)", "SELECT - FROM t", "SELECT a FROM t WHERE (a = ", "SELECT f(", "SELECT CASE WHEN a THEN", "SELECT a FROM t WHERE a IN (1,", "SELECT NOT",
 			"UPDATE t SET a = -", "SELECT +(1", "SELECT a FROM t WHERE - - - ", "DELETE FROM t WHERE a BETWEEN 1 AND", "SELECT CAST(a AS", "SELECT a[", "SELECT (((((", "SELECT a FROM t LIMIT 1, 2",
 			// statements cut short right before their terminator: the terminator is not theirs to consume
-			"SELECT MATCH(a) AGAINST ('x' IN BOOLEAN MODE FROM t", "SHOW TABLES FROM", "SHOW", "SELECT a FROM t LIMIT 1.5"}
+			"SELECT MATCH(a) AGAINST ('x' IN BOOLEAN MODE FROM t", "SHOW TABLES FROM", "SHOW", "SELECT a FROM t LIMIT 1.5",
+			"SHOW CREATE", "SHOW CREATE TABLE", "SHOW CREATE VIEW", "SHOW COLUMNS FROM", "SHOW INDEX FROM", "DESCRIBE", "EXPLAIN"}
 		// (SHOW without a target is malformed by the documented SHOW forms, whatever a lenient parse of it alone says)
-		forcedBad := map[string]bool{"SHOW TABLES FROM": true, "SHOW": true}
+		forcedBad := map[string]bool{"SHOW TABLES FROM": true, "SHOW": true, "SHOW CREATE": true, "SHOW CREATE TABLE": true, "SHOW CREATE VIEW": true, "SHOW COLUMNS FROM": true, "SHOW INDEX FROM": true, "DESCRIBE": true}
 		goods := []string{"SELECT COUNT(a) FROM t WHERE (a = 1)", "SELECT a FROM t WHERE b IN (SELECT c FROM u WHERE (d = 1))", "SELECT CASE WHEN (a = 1) THEN f(g(b)) ELSE -c END FROM t", "SELECT a FROM t"}
 		for bi, bad := range bads {
 			if _, err := gosqlx.Parse(bad); err == nil && !forcedBad[bad] {
